@@ -40,8 +40,10 @@ impl Out {
     pub fn search(&mut self, r: usize, p: &str) {
         self.op(format!("search {r} {}", hex(p.as_bytes())));
     }
+    /// the printed tree, and the byte-exact structural dump of the same tree (verif hook)
     pub fn display(&mut self, r: usize) {
         self.op(format!("display {r}"));
+        self.op(format!("dump {r}"));
     }
 }
 
